@@ -92,8 +92,7 @@ func recScenarios(r *vkit.R, g *vkit.Rand) []recScenario {
 	return out
 }
 
-func recoveryPhase(r *vkit.R) {
-	g := r.Rng.Fork("recovery")
+func recoveryPhase(r *vkit.R, g *vkit.Rand) {
 	scs := recScenarios(r, g)
 	r.Set("recovery_limiters", len(scs))
 	var wg sync.WaitGroup
